@@ -1,8 +1,8 @@
 #!/bin/bash
 # usage: confirm_mutant.sh <Cxx> <n>  -- confirm a seeded change in its scratch worktree /tmp/mut/<Cxx> at /repo's HEAD:
 #   repo tests pass with the change; the demonstration fails with it and passes without it.
-C=$1; N=$2; W=/tmp/mut/$C; O=$W/out/$N
-LOG=/root/scratch/confirm/$C-$N.log
+C=$1; N=$2; ROOT=${MUTROOT:-/tmp/mut}; W=$ROOT/$C; O=$W/out/$N
+LOG=${CONFDIR:-/root/scratch/confirm}/$C-$N.log
 exec > $LOG 2>&1
 cd $W || exit 2
 HEAD=$(git -C /repo rev-parse HEAD)
